@@ -143,7 +143,7 @@ def floors(tier):
     cells = [('alias', op) for op in ('__init__', 'deepcopy', 'like', '__add__', '__mul__', '__neg__', '__invert__', '__and__', '__lshift__', '__rshift__', '__array_function__',
                                       '__array_ufunc__', 'sum', 'add')]
     cells += [('container', k) for k in ('list', 'list:nested', 'list:str', 'tuple', 'ndarray:f', 'ndarray:i', 'ndarray:U')]
-    cells += [('history', r) for r in ROUTES] + [('mutation', m) for m in MUTATIONS] + [('view',), ('container-functions',), ('config', 'attribute'), ('config', 'kwarg'), ('config', 'Config')]
+    cells += [('history', r) for r in ROUTES] + [('mutation', m) for m in MUTATIONS] + [('view',), ('container-functions',), ('config', 'attribute'), ('config', 'kwarg'), ('config', 'Config'), ('config-keyword',)]
     cells += [('history_rank', r, k) for r in ('np_transpose', 'T', 'flatten', 'ravel', 'm_transpose') for k in (0, 1, 2)]
     cells += [('view_mutation', vm) for vm in ('resize', 'resize_frac', 'config', 'flag_reset')] + [('nested-config',)]
     return cells
@@ -393,6 +393,25 @@ def run_case(case, ctx):
         sibs[1].config.rounding = 'ceil'
         if sibs[0].config.rounding == 'ceil' or T.config.rounding == 'ceil':
             ctx.violation('not_independent', 'a config change on one sibling reached another object', key='history.like')
+        # a Config handed over with the config= keyword is an input like a template: the objects built from it are independent of it and of each other
+        Config = ctx.mon.objects.Config
+        cfg = Config(rounding=rng.choice(['floor', 'around', 'trunc']), overflow=rng.choice(['saturate', 'wrap']))
+        cfg_before = (cfg.rounding, cfg.overflow, cfg.shifting, cfg.op_sizing)
+        a = Fxp(0.5, True, 16, 8, config=cfg)
+        b = Fxp([1.25, -2.0], True, 16, 8, config=cfg)
+        c = Fxp(3.0, True, 16, 8, config=cfg, rounding='ceil')
+        if a.config is cfg or b.config is cfg or a.config is b.config or c.config is cfg:
+            ctx.violation('not_independent', 'Fxp(v, config=cfg) keeps the caller\'s Config object (shared with cfg / with a sibling built from it)', key='history.config_keyword')
+        elif (cfg.rounding, cfg.overflow, cfg.shifting, cfg.op_sizing) != cfg_before or a.config.rounding != cfg_before[0]:
+            ctx.violation('not_independent', 'Fxp(v, config=cfg, rounding=\'ceil\') changed cfg or a sibling: cfg now %r, was %r' % ((cfg.rounding, cfg.overflow), cfg_before[:2]), key='history.config_keyword')
+        else:
+            a.config.rounding = 'ceil' if cfg_before[0] != 'ceil' else 'floor'
+            a.config.op_sizing = 'same'
+            cfg.overflow = 'wrap' if cfg_before[1] == 'saturate' else 'saturate'
+            if b.config.rounding != cfg_before[0] or b.config.op_sizing != cfg_before[3] or cfg.rounding != cfg_before[0] or a.config.overflow != cfg_before[1] or b.config.overflow != cfg_before[1]:
+                ctx.violation('not_independent', 'a configuration change on one of cfg, Fxp(v, config=cfg), Fxp(w, config=cfg) reached another of them', key='history.config_keyword')
+        ctx.judged(('config-keyword',), True, None)
+        ctx.floor_hit(('config-keyword',))
         # documented view: chained indexed assignment writes through
         s, w, nf = G.conventional_format(rng, 6, 16)
         x = Fxp(np.zeros((2, 3)), s, w, nf)
